@@ -37,6 +37,8 @@ VI_CMDS = ["x", "X", "s", "S", "dd", "cc", "yy", "Y", "D", "C", "p", "P", "u", "
            "i", "a", "I", "A", "o", "O", "v", "V", "<c-v>", "<c-a>", "<c-x>", "zz", "zt", "zb", ">>", "<<",
            "/a<c-m>", "?o<c-m>", "/zz<c-m>", "/<escape>", "<c-o>", "<c-k>a:", "<c-k>", "<c-t>", "<c-d>", "<c-w>",
            "<c-u>", "<c-e>", "<c-y>", "<c-n>", "<c-p>", "<tab>", "<s-tab>", "<c-l>", "<insert>", "<delete>",
+           "<c-r>zz<c-m>", "<c-s>zz<c-g>", "<c-r>o<c-m>", "<c-s>a<escape>", "<c-r><c-h>", "<c-r>q<c-c>", "A<c-r>zz<c-m>", "A<c-s><c-g>",
+           "<c-v>j$A<delete>", "<c-v>$A<delete>", "<c-v>j$A<backspace>", "<c-v>jlA<delete><delete>", "G<c-v>$A<delete>",
            "qa", "q", "@a", "@@", "<c-v>jI", "<c-v>jlA", "<c-v>jjI", "<c-v>kA", "<c-v>I", "\"a", "\"ap", "\"b", "<c-x><c-l>", "<c-x><c-f>", "<pageup>", "<pagedown>"]
 EMACS_CMDS = ["<c-a>", "<c-e>", "<c-b>", "<c-f>", "<c-n>", "<c-p>", "<c-k>", "<c-u>", "<c-w>", "<c-y>", "<c-t>",
               "<c-d>", "<c-h>", "<c-@>", "<c-g>", "<c-_>", "<c-o>", "<c-q>x", "<c-r>a", "<c-s>o", "<c-m>", "<c-j>",
@@ -139,3 +141,40 @@ def exhaustive_vi_thorough():
     yield from _exh(SEEDS_EXH[:2], 3, True)
     yield from _exh(SEEDS_EXH[2:], 2, True)
     yield from _exh(SEEDS_EXH, 2, False)
+
+
+# --- directed families -----------------------------------------------------
+
+def block_insert_family(full):
+    """Block selection -> I/A (insert-multiple mode) -> editing keys, with the
+    block's right edge at the end of lines and of the buffer."""
+    texts = ["abc\ndef", "ab\n\ncdef", "界x\ny", "a"] + (["abc\ndef\n", "x\nyz\nw"] if full else [])
+    motions = ["j", "j$", "$", "jl", "k$", "G$"] + (["jj$", "l", "kl"] if full else [])
+    edits1 = ["<delete>", "<backspace>", "<left>", "<right>", "z", "<paste:pq>"]
+    for t in texts:
+        for start in ["gg", "G", "gg$"] if full else ["gg", "G"]:
+            for m in motions:
+                for ia in ("I", "A"):
+                    pre = tokenize("<escape>" + start + "<c-v>" + m + ia)
+                    for e in edits1:
+                        yield dict(mode="vi", multiline=True, text=t, cursor=0, history=["h"]), pre + [e, "<escape>"]
+                    pairs = [(a, b) for a in edits1 for b in edits1] if full else [("<delete>", "<delete>"), ("<right>", "<delete>"), ("z", "<backspace>"), ("<left>", "<delete>")]
+                    for a, b in pairs:
+                        yield dict(mode="vi", multiline=True, text=t, cursor=0, history=["h"]), pre + [a, b, "<escape>"]
+
+
+def search_family(full):
+    """Incremental search started from insert mode (C-r/C-s) and from
+    navigation mode (/ ?), matching / non-matching / empty pattern, left by
+    accept or abort; then a motion, so that the Vi cursor rule is seen at rest."""
+    texts = [("hello world", None), ("ab\ncd", 2), ("x", None)] + ([("one two one", 4), ("", None)] if full else [])
+    starts = [["<c-r>"], ["<c-s>"], ["<escape>", "/"], ["<escape>", "?"], ["<escape>", "A", "<c-r>"], ["<escape>", "<c-r>"]]
+    pats = ["", "zz", "o", "l"] + (["hello world", "\\"] if full else [])
+    ends = [["<c-m>"], ["<escape>"], ["<c-g>"], ["<c-c>"], ["<c-h>"], ["<c-r>", "<c-m>"]]
+    for t, cur in texts:
+        for st in starts:
+            for p in pats:
+                for e in ends:
+                    for ml in ((False, True) if full else (False,)):
+                        yield (dict(mode="vi", multiline=ml, text=t, cursor=cur, history=["hello"]),
+                               st + list(p) + e + ["x"])
